@@ -1,6 +1,7 @@
 import Driver.Util
 import NixModel.Pure.Validator
 import NixModel.Generated.ValidatorGuards
+import NixModel.Pure.DimLink
 open Lean Nix.Validator Nix.Validator.Gen
 
 /-!
@@ -14,6 +15,9 @@ from the source (`Generated/ValidatorGuards.lean`) under `PyGuard.eval`, the rea
 (`null`, `["bool", b]`, `["int", n]`, `["rat", "n/d"]`, `["str", s]`, `["rats", […]]`, `["strs", […]]`, `["ints", […]]`,
 `["strss", [[…]]]`, `["intss", [[…]]]`, `["sized", n]`, `["enum", name]`; a path that is absent reads as `None`); the answer is the list of
 identifiers whose site fires, in source order, or `{"err": <class>}`.
+
+`["linkticks", shape, index, data]` = the ticks of a range dimension linked to a DataArray (`Pure/DimLink.lean`),
+`["linkaccept", shape, index]` = the verdict of `link_data_array`.
 -/
 namespace Driver.C14
 
@@ -215,6 +219,22 @@ def handle (j : Json) : Json :=
     | some sites, .ok env =>
       match Nix.PyGuard.fired env sites with
       | .ok ids => ok (Json.arr (ids.map fun m => Json.str m.name).toArray)
+      | .error e => err e
+  | [Json.str "linkticks", sh, ix, da] =>
+    -- `RangeDimension.ticks` of a dimension linked to a DataArray of that shape / row-major data by that index
+    match (do return (← (← arr sh).mapM nat, ← (← arr ix).mapM int, ← (← arr da).mapM rat) : P _) with
+    | .error m => bad s!"C14: {m}"
+    | .ok (shape, index, data) =>
+      match Nix.DimLink.linkedTicks shape index data with
+      | .ok v => ok (Json.arr (v.map fun r => Json.str (ratStr r)).toArray)
+      | .error e => err e
+  | [Json.str "linkaccept", sh, ix] =>
+    -- `Dimension.link_data_array(provider, index)`: accepted (`null`) or the exception class
+    match (do return (← (← arr sh).mapM nat, ← (← arr ix).mapM int) : P _) with
+    | .error m => bad s!"C14: {m}"
+    | .ok (shape, index) =>
+      match Nix.DimLink.linkDataArray shape index with
+      | .ok _ => ok Json.null
       | .error e => err e
   | [Json.str "catalogue"] =>
     ok (Json.arr (MsgId.all.map fun m =>
